@@ -34,6 +34,12 @@ def view_of(case, salt=""):
     return VIEWS[zlib.crc32((json.dumps(case, sort_keys=True, default=str) + salt).encode()) % len(VIEWS)]
 
 
+def crc(case, salt=""):
+    """a small integer that is a pure function of the case (for choices that the case does not carry as a field)"""
+    import json, zlib
+    return zlib.crc32((json.dumps(case, sort_keys=True, default=str) + salt).encode())
+
+
 def lie(ltype, data, dtype="float64", shape=None, requires_grad=False, view=None):
     t = torch.tensor(data, dtype=TD[dtype])
     if shape is not None:
